@@ -67,7 +67,6 @@ FipsOk(r) ==
 BashNNNOk(r) ==
   LET lv == r.nnn \div 2 IN
   /\ r.nnn \in {256, 384, 512}
-  /\ ~Has(r, "missing")                                   \* a macro of the family that cannot be used
   /\ CASE r.via = "Hash"  -> r.err = "OK" /\ r.out = BashHash(lv, r.in)
        [] r.via = "Steps" -> /\ Len(r.in) = Sum(r.frags)
                              /\ r.g1 = BashHash(lv, TakeN(r.in, r.pre))      \* StepG, hashing goes on
